@@ -1,6 +1,7 @@
 """Shared by checks/c03.py and checks/c05.py (family ringmerge: spec/ringmerge, harness/c03, harness/c05)."""
 import json
 import os
+import threading
 
 import verif
 
@@ -10,11 +11,97 @@ WORKERS = int(os.environ.get("VERIF_TLC_WORKERS", "0")) or None
 TLC_TIMEOUT = 3000
 
 
+# ---- several TLC runs at a time -------------------------------------------------------------------------
+# JVM start + JIT warm-up dominate the small exhaustive configs, so independent runs are started side by
+# side (a few workers each). Ctx.tlc numbers its run directory in its first two statements; the hand-off
+# below lets only one thread at a time go through them (the lock is released when Ctx.tlc asks for its
+# run directory), and the state counters are added here, under the lock, instead of inside Ctx.tlc.
+_LOCK = threading.Lock()
+_TL = threading.local()
+
+
+def _patch(ctx):
+    if getattr(ctx, "_rm_patched", False):
+        return
+    orig = ctx.path
+
+    def path(*p):
+        r = orig(*p)
+        if getattr(_TL, "holding", False):
+            _TL.holding = False
+            _LOCK.release()
+        return r
+    ctx.path = path
+    ctx._rm_patched = True
+
+
+def locked_tlc(ctx, *a, **kw):
+    """Ctx.tlc, callable from several threads."""
+    _patch(ctx)
+    count = kw.pop("count", True)
+    kw["count"] = False
+    _LOCK.acquire()
+    _TL.holding = True
+    try:
+        r = ctx.tlc(*a, **kw)
+    finally:
+        if getattr(_TL, "holding", False):
+            _TL.holding = False
+            _LOCK.release()
+    if count:
+        with _LOCK:
+            ctx.states += r.distinct
+            ctx.transitions += r.generated
+    return r
+
+
+def locked_harness(ctx, *a, **kw):
+    """Ctx.run_harness, callable beside TLC threads (it numbers its result file the same way)."""
+    _patch(ctx)
+    _LOCK.acquire()
+    _TL.holding = True
+    try:
+        return ctx.run_harness(*a, **kw)
+    finally:
+        if getattr(_TL, "holding", False):
+            _TL.holding = False
+            _LOCK.release()
+
+
+def par_workers(width):
+    if WORKERS:
+        return WORKERS
+    return max(2, verif.default_workers() // max(1, width))
+
+
+def run_parallel(fns, width=4):
+    """Run the callables (each does one TLC run) `width` at a time; returns results in order, re-raises the first exception."""
+    results = [None] * len(fns)
+    errors = [None] * len(fns)
+    sem = threading.Semaphore(width)
+
+    def work(i):
+        with sem:
+            try:
+                results[i] = fns[i]()
+            except BaseException as ex:   # noqa: B902 - re-raised in the caller's thread
+                errors[i] = ex
+    threads = [threading.Thread(target=work, args=(i,)) for i in range(len(fns))]
+    for t in threads:
+        t.start()
+    for t in threads:
+        t.join()
+    for e in errors:
+        if e is not None:
+            raise e
+    return results
+
+
 def tlc_ok(ctx, module, cfg, what=None, **kw):
     """Run one exhaustive config; anything but a clean finish is inconclusive."""
     kw.setdefault("timeout", TLC_TIMEOUT)
     kw.setdefault("workers", WORKERS)
-    r = ctx.tlc(FAMILY, module, cfg=cfg, **kw)
+    r = locked_tlc(ctx, FAMILY, module, cfg=cfg, **kw)
     ctx.require_tlc_ok(r, what or cfg)
     return r
 
@@ -53,8 +140,8 @@ def validate_trace(ctx, module, trace_path, subst, label, sig_prefix):
     n = count_lines(trace_path)
     if n == 0:
         raise verif.Inconclusive("%s: empty trace" % label)
-    r = ctx.tlc(FAMILY, module, cfg=module + ".cfg", workers=1, timeout=TLC_TIMEOUT, deadlock=False,
-                subst=subst, extra_files={trace_path: "trace.ndjson"}, count=False)
+    r = locked_tlc(ctx, FAMILY, module, cfg=module + ".cfg", workers=1, timeout=TLC_TIMEOUT, deadlock=False,
+                   subst=subst, extra_files={trace_path: "trace.ndjson"}, count=False)
     if r.timed_out or r.error:
         raise verif.Inconclusive("%s: TLC %s" % (label, "timed out" if r.timed_out else r.error[:300]))
     if r.violated == "Accepted":
@@ -83,10 +170,12 @@ def validate_trace(ctx, module, trace_path, subst, label, sig_prefix):
         return 0
     if r.violated or r.rc != 0:
         raise verif.Inconclusive("%s: trace validation failed without a verdict (%s): %s" % (label, r.violated, r.log[-800:]))
-    ctx.states += r.distinct
-    ctx.transitions += r.generated
-    ctx.traces += n
-    ctx.evaluations += n
     with open(trace_path) as f:   # non-trivial by the stated rule: the recorded call changed the receiver
-        ctx.nontrivial += sum(1 for line in f if '"nil":false' in line)
+        nt = sum(1 for line in f if '"nil":false' in line)
+    with _LOCK:
+        ctx.states += r.distinct
+        ctx.transitions += r.generated
+        ctx.traces += n
+        ctx.evaluations += n
+        ctx.nontrivial += nt
     return n
